@@ -41,8 +41,12 @@ COMPRESS_STATES = ["absent", "empty", "shorter", "longer", "identical", "other"]
 CLONE_FLAGS = [[], ["-f"], ["--seed-output"], ["-f", "--seed-output"]]
 COMPRESS_FLAGS = [[], ["-f"]]
 ARCHIVE_KINDS = ["valid", "bad-magic", "flipped-header-byte", "truncated-header", "wrong-verify-header",
+                 # an expected checksum that is only a prefix of the right one, and the empty one (`--verify-header "$SUM"`
+                 # with SUM unset): neither EQUALS the archive's checksum
+                 "prefix-verify-header", "empty-verify-header",
                  "right-verify-header"]
-INVALID_KINDS = {"bad-magic", "flipped-header-byte", "truncated-header", "wrong-verify-header"}
+INVALID_KINDS = {"bad-magic", "flipped-header-byte", "truncated-header", "wrong-verify-header", "prefix-verify-header",
+                 "empty-verify-header"}
 COMPRESS_INPUTS = ["valid-input", "missing-input"]
 
 # source / archive variants: name -> (source length, compress arguments)
@@ -174,7 +178,8 @@ def archive_kinds(archive):
     flip[14 + dict_len // 2] ^= 0x20
     out = {"valid": archive, "bad-magic": bytes(bad), "flipped-header-byte": bytes(flip),
            "truncated-header": archive[:14 + dict_len * 2 // 3],
-           "wrong-verify-header": archive, "right-verify-header": archive}
+           "wrong-verify-header": archive, "right-verify-header": archive,
+           "prefix-verify-header": archive, "empty-verify-header": archive}
     return out
 
 
@@ -354,6 +359,10 @@ def run_case(env_, idx, case):
                 argv += ["--verify-header", wrong_checksum(var["checksum"])]
             elif case["archive"] == "right-verify-header":
                 argv += ["--verify-header", var["checksum"]]
+            elif case["archive"] == "prefix-verify-header":
+                argv += ["--verify-header", var["checksum"][:len(var["checksum"]) // 2]]
+            elif case["archive"] == "empty-verify-header":
+                argv += ["--verify-header", ""]
             if case["command"] == "clone-local":
                 arch = os.path.join(case_dir, "arch", "a.cba")
                 with open(arch, "wb") as f:
